@@ -77,6 +77,14 @@ def run(ctx):
         for name in ("cos", "sin"):
             for tau, eps in ((16.0, 0.3), (0.5, 0.3), (12.0, 0.5), (8.0, 0.3), (3.0, 0.5), (1.0, 0.1)):
                 groups.append({"name": name, "args": G.enc_args({"tau": tau, "epsilon": eps}), "extra": {}, "order": rng.sample(range(8), 8), "cheb_only": False})
+    if ctx.replay is None:
+        # sweep: bounded (with scale) against unbounded only, Chebyshev basis, low degrees (interior global maxima) and non-default sample
+        # counts - a second normalisation after the scale was computed shows up only when some other grid sees a larger value
+        for name in G.ERF:
+            for rep in range(12 if quick else 60):
+                a = dict(G.shape_args(rng, name), degree=G.right_parity_degree(rng, name, 2, 13))
+                groups.append({"name": name, "args": G.enc_args(a), "extra": {"cheb_samples": rng.choice([20, 30, 40, 60, 80])}, "order": [0, 6],
+                               "cheb_only": True, "pair": True})
     combos = [(eb, rs, cheb) for eb in (True, False) for rs in (True, False) for cheb in (True, False)]
     cases = []
     for gi, g in enumerate(groups):
@@ -107,6 +115,8 @@ def run(ctx):
     # the same requests, each as the only call of a fresh process: what a sequence returns must not depend on earlier calls
     fresh_cases = []
     for gi, g in enumerate(groups):
+        if g.get("pair"):
+            continue
         for (eb, rs) in ((False, False), (True, True)):
             c = {"fn": "gen", "name": g["name"], "args": g["args"], "ensure_bounded": eb, "return_scale": rs, "chebyshev_basis": True,
                  "timeout": 300, "gi": gi}
@@ -168,7 +178,7 @@ def run(ctx):
         if stale:
             continue
         bases = (True,) if g.get("cheb_only") else (True, False)
-        for eb in (True, False):
+        for eb in (() if g.get("pair") else (True, False)):
             for cheb in bases:
                 a, b = R[(eb, True, cheb)], R[(eb, False, cheb)]
                 if a["coefs"] != b["coefs"]:
